@@ -32,6 +32,9 @@ struct Session {
     awaiting_ack: VecDeque<(usize, oneshot::Sender<Result<RxPacket, MqttError>>)>,
     subscriptions: VecDeque<(usize, mpsc::UnboundedSender<RxPacket>)>,
     retrasmit_queue: VecDeque<(usize, Bytes)>,
+    /// Packet identifiers of inbound QoS 2 messages which have been delivered and
+    /// acknowledged with PUBREC, but not yet released with PUBREL.
+    unreleased: VecDeque<(usize, ())>,
 }
 
 struct Connection {
@@ -94,6 +97,7 @@ where
         session.awaiting_ack.clear();
         session.subscriptions.clear();
         session.retrasmit_queue.clear();
+        session.unreleased.clear();
     }
 
     fn validate_packet_size(connection: &Connection, packet: &[u8]) -> Result<(), MqttError> {
@@ -228,7 +232,24 @@ where
                 let qos = publish.qos;
                 let maybe_packet_id = publish.packet_identifier;
 
-                if let Some(subscription_identifier) =
+                // A QoS 2 message sent again before its PUBREL has already been delivered:
+                // it is acknowledged again, but not handed to the application twice.
+                let redelivery = match (qos, maybe_packet_id) {
+                    (QoS::ExactlyOnce, Some(packet_id)) => {
+                        let key = packet_id.get() as usize;
+                        if utils::linear_search_by_key(&session.unreleased, key).is_some() {
+                            true
+                        } else {
+                            session.unreleased.push_back((key, ()));
+                            false
+                        }
+                    }
+                    _ => false,
+                };
+
+                if redelivery {
+                    // Nothing to deliver.
+                } else if let Some(subscription_identifier) =
                     publish
                         .subscription_identifier
                         .map(|subscription_identifier| {
@@ -326,6 +347,11 @@ where
             }
             RxPacket::Pubrel(pubrel) => {
                 let packet_id = pubrel.packet_identifier;
+
+                // The identifier may be used for a new message from now on.
+                utils::linear_search_by_key(&session.unreleased, packet_id.get() as usize)
+                    .and_then(|pos| session.unreleased.remove(pos));
+
                 Self::ack::<PubcompReason>(tx, packet_id).await?
             }
             // Not expected while running; there is no pending operation they could complete.
@@ -391,6 +417,7 @@ where
                     awaiting_ack: VecDeque::new(),
                     subscriptions: VecDeque::new(),
                     retrasmit_queue: VecDeque::new(),
+                    unreleased: VecDeque::new(),
                 },
                 connection: Connection {
                     disconnection_timestamp: None,
